@@ -734,3 +734,146 @@ Proof.
   apply (ph_update_path PHF t1 t2 sndr id flt dm d2 Sh1 W51 ltac:(unfold small; lia) A F H2 Hp).
   apply (ph_batch_edit PHF t removes updates adds t1 added d dm W3 S B Hm V).
 Qed.
+
+(* ---- the committer's computation of the parent hashes on its path (RFC 9420 7.9, parent_hash.rs
+   update_parent_hashes), as a function: top-down, each unfiltered path node and finally the leaf store the
+   hash of the next unfiltered node above them.  With it the hypothesis of ph_update_path is discharged. ---- *)
+Section Compute.
+  Variable PHF : N -> N -> cterm -> N.
+  Variables (t2 : tree) (d : deco) (sndr : N) (flt : list bool) (fk : N -> N) (leafkey : N).
+
+  (* the lowest unfiltered position at or above i *)
+  Fixpoint next_at_or_above (fuel i : nat) : option nat :=
+    match fuel with
+    | O => None
+    | S f => match nth_error flt i with
+             | Some false => Some i
+             | Some true => next_at_or_above f (S i)
+             | None => None
+             end
+    end.
+
+  (* the parent hash stored in whatever sits just below position i (fuel = positions left above) *)
+  Fixpoint ph_below (fuel i : nat) : N :=
+    match fuel with
+    | O => 0
+    | S f => match nth_error flt i with
+             | Some false => PHF (fk (N.of_nat i)) (ph_below f (S i)) (content t2 d [] i (sib (sndr / 2 ^ N.of_nat i)))
+             | Some true => ph_below f (S i)
+             | None => 0
+             end
+    end.
+
+  Definition on_path (n : N) : option nat :=
+    find (fun i => n =? lvl_node (N.of_nat (S i)) sndr) (seq 0 (length flt)).
+
+  Definition decorate : deco := fun n =>
+    if n =? 2 * sndr then (leafkey, ph_below (length flt) 0)
+    else match on_path n with
+         | Some i => match nth_error flt i with
+                     | Some false => (fk (N.of_nat i), ph_below (length flt - S i) (S i))
+                     | _ => d n
+                     end
+         | None => d n
+         end.
+
+  Lemma on_path_some n i : on_path n = Some i -> n = lvl_node (N.of_nat (S i)) sndr /\ (i < length flt)%nat.
+  Proof.
+    unfold on_path. intro F. apply find_some in F. destruct F as [I E]. apply in_seq in I.
+    apply N.eqb_eq in E. split; [exact E|lia].
+  Qed.
+
+  Lemma find_first_seq (f : nat -> bool) i : forall n s, (s <= i < s + n)%nat -> f i = true ->
+    (forall j, (s <= j < i)%nat -> f j = false) -> find f (seq s n) = Some i.
+  Proof.
+    induction n as [|n IH]; intros s R Fi Fj; [lia|]. cbn [seq find].
+    destruct (Nat.eq_dec s i) as [->|Ne]; [rewrite Fi; reflexivity|].
+    rewrite (Fj s) by lia. apply IH; [lia|exact Fi|intros j Hj; apply Fj; lia].
+  Qed.
+
+  Lemma on_path_lvl i : (i < length flt)%nat -> on_path (lvl_node (N.of_nat (S i)) sndr) = Some i.
+  Proof.
+    intro L. unfold on_path. apply find_first_seq; [lia|apply N.eqb_refl|].
+    intros j Hj. apply N.eqb_neq. intro E. apply lvl_node_inj_level in E. lia.
+  Qed.
+
+  Lemma decorate_off n : n <> 2 * sndr -> ~ ancestor n sndr -> decorate n = d n.
+  Proof.
+    intros Nn Na. unfold decorate. destruct (N.eqb_spec n (2 * sndr)) as [E|_]; [contradiction|].
+    destruct (on_path n) as [i|] eqn:O; [|reflexivity].
+    apply on_path_some in O. destruct O as [E _]. exfalso. apply Na. rewrite E. apply ancestor_lvl. lia.
+  Qed.
+
+  Lemma decorate_path_node i : nth_error flt i = Some false ->
+    decorate (lvl_node (N.of_nat (S i)) sndr) = (fk (N.of_nat i), ph_below (length flt - S i) (S i)).
+  Proof.
+    intro Hf. assert (L : (i < length flt)%nat) by (apply nth_error_Some; congruence).
+    unfold decorate. destruct (N.eqb_spec (lvl_node (N.of_nat (S i)) sndr) (2 * sndr)) as [E|_].
+    - pose proof (lvl_node_odd (N.of_nat (S i)) sndr ltac:(lia)) as O. rewrite E, N.even_mul in O. discriminate.
+    - rewrite (on_path_lvl i L), Hf. reflexivity.
+  Qed.
+
+  Definition pos (o : option nat) : nat := match o with Some b => S b | None => O end.
+
+  Lemma decorate_dnode o : (forall b, o = Some b -> nth_error flt b = Some false) ->
+    snd (decorate (dnode sndr o)) = ph_below (length flt - pos o) (pos o).
+  Proof.
+    intro H. destruct o as [b|]; cbn [dnode pos].
+    - rewrite (decorate_path_node b (H b eq_refl)). reflexivity.
+    - unfold decorate. rewrite N.eqb_refl. cbn [snd]. rewrite Nat.sub_0_r. reflexivity.
+  Qed.
+
+  Lemma next_below_spec i : (forall b, next_below flt i = Some b -> nth_error flt b = Some false) /\
+    (pos (next_below flt i) <= i)%nat /\
+    (forall j, (pos (next_below flt i) <= j < i)%nat -> (j < length flt)%nat -> nth_error flt j = Some true).
+  Proof.
+    induction i as [|i (IH1 & IH2 & IH3)]; cbn [next_below].
+    - split; [discriminate|]. split; [cbn; lia|]. intros; lia.
+    - destruct (nth_error flt i) as [[|]|] eqn:Hf.
+      + split; [exact IH1|]. split; [lia|]. intros j Hj Lj. destruct (Nat.eq_dec j i) as [->|Ne]; [exact Hf|apply IH3; [lia|exact Lj]].
+      + split; [intros b E; inversion E; subst; exact Hf|]. split; [cbn [pos]; lia|]. cbn [pos]. intros; lia.
+      + split; [exact IH1|]. split; [lia|]. intros j Hj Lj. destruct (Nat.eq_dec j i) as [->|Ne]; [apply nth_error_None in Hf; lia|apply IH3; [lia|exact Lj]].
+  Qed.
+
+  Lemma ph_below_skip : forall n a, (a + n <= length flt)%nat ->
+    (forall j, (a <= j < a + n)%nat -> nth_error flt j = Some true) ->
+    ph_below (length flt - a) a = ph_below (length flt - (a + n)) (a + n).
+  Proof.
+    induction n as [|n IH]; intros a L T; [rewrite Nat.add_0_r; reflexivity|].
+    replace (length flt - a)%nat with (S (length flt - S a)) by lia. cbn [ph_below].
+    rewrite (T a) by lia. replace (a + S n)%nat with (S a + n)%nat by lia. apply IH; [lia|intros j Hj; apply T; lia].
+  Qed.
+
+  Lemma decorate_recurrence i : nth_error flt i = Some false ->
+    snd (decorate (dnode sndr (next_below flt i))) =
+    PHF (fst (decorate (lvl_node (N.of_nat (S i)) sndr))) (snd (decorate (lvl_node (N.of_nat (S i)) sndr)))
+        (content t2 decorate [] i (sib (sndr / 2 ^ N.of_nat i))).
+  Proof.
+    intro Hf. assert (L : (i < length flt)%nat) by (apply nth_error_Some; congruence).
+    destruct (next_below_spec i) as (B1 & B2 & B3).
+    rewrite (decorate_dnode _ B1), (decorate_path_node i Hf). cbn [fst snd].
+    set (a := pos (next_below flt i)) in *.
+    rewrite (ph_below_skip (i - a) a) by (try lia; intros j Hj; apply B3; lia).
+    replace (a + (i - a))%nat with i by lia.
+    replace (length flt - i)%nat with (S (length flt - S i)) by lia. cbn [ph_below]. rewrite Hf.
+    f_equal. symmetry. apply content_agree. apply (agree_outside t2 t2 d decorate sndr).
+    - intros n Nn Na. split; [reflexivity|intros _; apply decorate_off; assumption].
+    - unfold sib. destruct (N.even (sndr / 2 ^ N.of_nat i)) eqn:Ev; [lia|].
+      destruct (N.eq_dec (sndr / 2 ^ N.of_nat i) 0) as [Z|NZ]; [rewrite Z in Ev; discriminate|lia].
+  Qed.
+End Compute.
+
+(* one whole commit with the committer's parent hashes computed by [decorate]: no hypothesis about them is left *)
+Theorem ph_commit_computed PHF t removes updates adds t1 added sndr id t2 flt d dm fk leafkey :
+  wf3 t -> wf5 t -> shape_ok t -> tlen t + 2 * N.of_nat (length adds) < 2 ^ 25 ->
+  batch_edit t removes updates adds = TOk (t1, added) ->
+  apply_update_path t1 sndr id = TOk t2 ->
+  filtered (set t1 (2 * sndr) (Some (Leaf id))) sndr = Ok flt ->
+  (forall n, (forall l, In l (map fst updates) -> n <> 2 * l) -> get t n <> None -> dm n = d n) ->
+  PHValid PHF t d -> PHValid PHF t2 (decorate PHF t2 dm sndr flt fk leafkey).
+Proof.
+  intros W3 W5 Sh S B A F Hm V.
+  apply (ph_commit PHF t removes updates adds t1 added sndr id t2 flt d dm _ W3 W5 Sh S B A F Hm); [| |exact V].
+  - intros n Nn Na _. apply decorate_off; assumption.
+  - intros i Hf. apply decorate_recurrence. exact Hf.
+Qed.
